@@ -24,10 +24,15 @@ Definition get_id (d : Z) (s : idman) : option (Z * idman) :=
        end.
 
 (** [discard] and [remove] have the same effect on the state; [remove] raises KeyError when absent. *)
-Definition discard (e : Z) (s : idman) : idman :=
-  {| used := used s ∖ {[e]}; pos := if decide (e < pos s) then e else pos s |}.
-Definition remove (e : Z) (s : idman) : option idman :=
-  if decide (e ∈ used s) then Some (discard e s) else None.
+(** [lower_guard] is read from the source: [true] when the hint is only lowered by positive IDs
+    ([if 0 < element < self.search_pos]), [false] for the unguarded [if element < self.search_pos]. *)
+Definition discard_g (lower_guard : bool) (e : Z) (s : idman) : idman :=
+  {| used := used s ∖ {[e]};
+     pos := if decide (e < pos s) then (if lower_guard && negb (bool_decide (0 < e)) then pos s else e) else pos s |}.
+Definition discard := discard_g true.
+Definition remove_g (g : bool) (e : Z) (s : idman) : option idman :=
+  if decide (e ∈ used s) then Some (discard_g g e s) else None.
+Definition remove := remove_g true.
 Definition clear (_ : idman) : idman := init.
 
 (** Operation language used by the correspondence check. *)
@@ -35,11 +40,13 @@ Inductive op := Get (d : Z) | Discard (e : Z) | Remove (e : Z) | Clear | Contain
 
 (** Result of one operation, as an integer: the ID handed out, -1 for a KeyError, 0/1 for booleans,
     -2 for "no result", -3 for fuel exhaustion (unreachable). *)
+Section run.
+Variable g : bool.   (* the lowering guard as generated from the source *)
 Definition step (s : idman) (o : op) : idman * Z :=
   match o with
   | Get d => match get_id d s with Some (i, s') => (s', i) | None => (s, -3) end
-  | Discard e => (discard e s, -2)
-  | Remove e => match remove e s with Some s' => (s', -2) | None => (s, -1) end
+  | Discard e => (discard_g g e s, -2)
+  | Remove e => match remove_g g e s with Some s' => (s', -2) | None => (s, -1) end
   | Clear => (clear s, -2)
   | Contains e => (s, if decide (e ∈ used s) then 1 else 0)
   | Len => (s, Z.of_nat (size (used s)))
@@ -50,3 +57,4 @@ Fixpoint run (s : idman) (ops : list op) : list Z :=
   | [] => [pos s]
   | o :: r => let '(s', z) := step s o in z :: run s' r
   end.
+End run.
